@@ -71,6 +71,8 @@ pub fn setup_namespace() {
         sh(&format!("ip -6 addr add fd00::10:{}/128 dev lo nodad", i));
         sh(&format!("ip -6 addr add fd00::20:{}/128 dev lo nodad", i));
     }
+    sh("ip addr add 192.0.2.7/32 dev lo");
+    sh("ip -6 addr add 2001:db8::7/128 dev lo nodad");
     sh("mkdir -p /var/lib/erbium && mount -t tmpfs tmpfs /var/lib/erbium");
 }
 
@@ -150,10 +152,6 @@ fn raw_reply(query: &[u8], w: &dnswalk::Walk, script: &Value) -> Vec<u8> {
         b.truncate(n as usize);
     }
     b
-}
-
-pub fn unhex(s: &str) -> Vec<u8> {
-    (0..s.len() / 2).map(|i| u8::from_str_radix(&s[2 * i..2 * i + 2], 16).unwrap_or(0)).collect()
 }
 
 /// what the upstream said, in the projection the client side uses too
@@ -807,6 +805,61 @@ fn hostile(args: &[String]) {
     std::process::exit(0);
 }
 
+/// `rig conf`: C19 at service level for DNS.  Each accepted configuration's routes and ACLs are
+/// swapped into the live DNS service, which then answers queries for names under every kind of
+/// route.  One `dns` event per configuration.
+fn conf(args: &[String]) {
+    let cases = read_ndjson(&arg(args, "--cases").expect("--cases"));
+    let mut out = Trace::create(&arg(args, "--out").expect("--out"));
+    setup_namespace();
+    let rt = tokio::runtime::Builder::new_multi_thread().worker_threads(4).enable_all().build().unwrap();
+    rt.block_on(async {
+        let sh = Shared::new();
+        start_upstreams(&sh, 2);
+        let live = start_dns(OPEN_ACLS, &[]).await;
+        for (ci, c) in cases.iter().enumerate() {
+            let yaml = c["yaml"].as_str().unwrap_or("");
+            let loaded = match guarded(|| erbium::config::verif_load_config_from_string(yaml)) {
+                Ok(Ok(l)) => l,
+                _ => continue, // judged at function level
+            };
+            out.emit(json!({"ev":"dnsstart","id":c["id"]}));
+            out.flush();
+            {
+                let mut a = live.write().await;
+                let mut b = loaded.write().await;
+                std::mem::swap(&mut a.dns_routes, &mut b.dns_routes);
+                std::mem::swap(&mut a.acls, &mut b.acls);
+            }
+            let mut hs = vec![];
+            for (qi, (name, src, listener)) in [(vec!["www", "example"], "192.0.2.7", "v4"), (vec!["x", "invalid"], "192.0.2.7", "v4"), (vec!["a", "Corp", "EXAMPLE"], "2001:db8::7", "v6"),
+                                                 (vec!["example", "com"], "192.0.2.7", "dual4"), (vec![], "192.0.2.7", "v4")].into_iter().enumerate() {
+                let q = json!({"q": format!("c{}", qi), "listener": listener, "src": src, "name": name, "id": 100 + qi, "qtype": 1000 + (ci % 50000) as u64, "adv": 1232,
+                               "proto": if qi == 3 { "tcp" } else { "udp" }, "wait_ms": 400, "linger_ms": 5});
+                hs.push(tokio::spawn(client_query(sh.clone(), q)));
+            }
+            for h in hs {
+                let _ = h.await;
+            }
+            let evs = sh.drain();
+            let replies = evs.iter().filter(|e| e["ev"] == "crecv").count();
+            let rcodes: Vec<Value> = evs.iter().filter(|e| e["ev"] == "crecv").map(|e| json!([e["q"], e["rcode"]])).collect();
+            let np = {
+                let mut p = PANICS.lock().unwrap();
+                let n = p.len();
+                let first = p.first().cloned().unwrap_or_default();
+                p.clear();
+                (n, first)
+            };
+            out.emit(json!({"ev":"dns","id":c["id"],"gen":c["gen"],"alive":true,"panics":np.0,"replies":replies,"rcodes":rcodes,"detail":np.1,"yaml": if np.0 > 0 { json!(yaml) } else { json!("") }}));
+            out.flush();
+        }
+    });
+    let n = out.finish();
+    eprintln!("rig conf: {} cases, {} events", cases.len(), n);
+    std::process::exit(0);
+}
+
 /// a valid query through the normal client; returns how many replies came back
 async fn client_query_count(q: Value) -> usize {
     let sh = Shared::new();
@@ -823,6 +876,7 @@ pub fn main(args: &[String]) {
         Some("dns") => dns(&args[1..]),
         Some("http") => crate::righttp::http(&args[1..]),
         Some("hostile") => hostile(&args[1..]),
+        Some("conf") => conf(&args[1..]),
         _ => {
             eprintln!("usage: rig dns|http ...");
             std::process::exit(2)
